@@ -185,6 +185,19 @@ def check(case, ctx) -> Result:
             if a[2] != b[2]:
                 res.violations.append(Viol("replay_value_differs", f"t={a[0]}: original value {a[2]}, replayed value {b[2]}", dict(feats, only_validated_empties=only_validated_empties(a[2], b[2]))))
                 break
+    if schema[0] in ("TSS", "TSD"):
+        # a first tick that carries no element still makes the recorded collection valid (and empty) in its cycle: the replay
+        # (and the copy fed by apply_delta) must become valid in that same cycle, not when the first element arrives
+        def first_valid(tr, label):
+            return next((d["t"] for d in tr.evals_of(label, "r") if d["ins"][0].get("v")), None)
+        fv = first_valid(t1, "rec")
+        if fv is not None and not res.violations:
+            for what, got in (("replayed", first_valid(t2, "rec")), ("apply_delta copy", first_valid(t1, "rec2"))):
+                if got != fv:
+                    res.violations.append(Viol("first_valid_time_differs", f"the original {schema[0]} became valid at t={fv} (value {next((x[2] for x in s1 if x[0] >= fv), None)}), the {what} one at t={got}", dict(feats, what=what)))
+                    break
+        if fv is not None and not any(x[0] == fv for x in s1):
+            res.labels.append("first_tick_validates_empty_collection")
     b1 = norm_recorded((r1.get("recorded") or {}).get("buf") or [], schema)
     b2 = norm_recorded((r2.get("recorded") or {}).get("buf2") or [], schema)
     if isinstance((r1.get("recorded") or {}).get("buf"), dict) or isinstance((r2.get("recorded") or {}).get("buf2"), dict):
